@@ -137,6 +137,13 @@ example : parseTop ⟨{}, .slice, .value⟩ [0x5b, 0x22, 0xc3, 0xa9, 0xc3, 0xa9,
       0x30, 0x30, 0x65, 0x39, 0x22, 0x5d] =
     .ok (.arr [.str [0xc3, 0xa9, 0xc3, 0xa9, 0xf0, 0x9f, 0x98, 0x80, 0xc3, 0xa9]]) :=
   (c09_str_slice_value {} _ (by decide +kernel)).symm.trans rfl
+/-- all three sources on `"é"` for skipped content -/
+example : parseTop (envOf {} .str .ignored) [0x22, 0xc3, 0xa9, 0x22] = .ok .null ∧
+    parseTop (envOf {} .slice .ignored) [0x22, 0xc3, 0xa9, 0x22] = parseTop (envOf {} .reader .ignored) [0x22, 0xc3, 0xa9, 0x22] :=
+  ⟨rfl, (c09_all_sources {} .ignored _ (by decide +kernel)).2⟩
+example : parseTop (envOf { ap := true } .reader .value) [0x22, 0xc3, 0xa9, 0x22] = .ok (.str [0xc3, 0xa9]) := by
+  have h := c09_all_sources { ap := true } .value [0x22, 0xc3, 0xa9, 0x22] (by decide +kernel)
+  rw [← h.2, ← h.1]; rfl
 /-- the hypothesis is needed: on `"\xff"` (not UTF-8, so not a `&str`) the model of the `&str` source,
     which skips the check, differs from the slice source -/
 example : parseTop ⟨{}, .str, .value⟩ [0x22, 0xff, 0x22] = .ok (.str [0xff]) ∧
